@@ -322,7 +322,10 @@ def random_clause(rnd, comps, allow_aggr=False):
                     break
             else:
                 e, ty = var(comps[0]['n']), comps[0]['t']
-            cand = [c['n'] for c in nonid if c['n'] not in used] + ['New_%d' % (len(names) + j)]
+            fresh = len(names) + j
+            while 'New_%d' % fresh in used or 'New_%d' % fresh in names:
+                fresh += 1
+            cand = [c['n'] for c in nonid if c['n'] not in used] + ['New_%d' % fresh]
             nm = rnd.choice(cand)
             used.add(nm)
             role = rnd.choice(['M', 'M', 'M', 'A'])
